@@ -12,8 +12,10 @@ package main
 
 import (
 	"fmt"
+	"sync"
 
 	"verif/mc"
+	qr "verif/ref/qr"
 
 	"github.com/makiuchi-d/gozxing"
 	"github.com/makiuchi-d/gozxing/qrcode"
@@ -63,6 +65,10 @@ func historyMenu() []hsym {
 	add("v7-kanji", pKanji, 7, 2, -1, 3, 0, 0)
 	add("v7-byte-full", pByteUTF8, 7, 0, 0, 4, 53, 53)
 	add("v10-numeric", pNumeric, 10, 3, 7, 2, 0, 0)
+	// a FOREIGN symbol (not written by the library): an undesignated byte segment holding Shift_JIS
+	// bytes, which the decoder has to guess. Its own outcome is not judged; it is a step of the
+	// histories because whatever a reader concludes about it must not reach the next symbol.
+	menu = append(menu, hsym{Name: "foreign-shiftjis-undesignated", Family: "foreign"})
 	if !chk.Quick() {
 		add("v27-alnum-full", pAlnum, 27, 1, -1, 4, 0, 0)
 		add("v40-byte-full", pByteLatin1, 40, 0, 2, 4, 0, 0)
@@ -123,9 +129,34 @@ func historySeq(l *mc.Local, menu []hsym, fresh []*gozxing.BitMatrix, seq []int)
 	w := qrcode.NewQRCodeWriter()
 	rd := qrcode.NewQRCodeReader()
 	dec := decoder.NewDecoder()
+	// the caller's decode hints are ONE map object for the whole history, as an application that
+	// configures its reader once would have it
+	rdHints := map[gozxing.DecodeHintType]interface{}{gozxing.DecodeHintType_PURE_BARCODE: true}
+	decHints := map[gozxing.DecodeHintType]interface{}{}
 	var kept, keptCopy []*gozxing.BitMatrix
 	for step, k := range seq {
 		s := menu[k]
+		if s.Family == "foreign" {
+			padded, bare := foreignSymbol()
+			var ftext string
+			pm, site := mc.Guard(func() {
+				if bmp, e := gozxing.NewBinaryBitmapFromImage(padded); e == nil {
+					if res, e := rd.Decode(bmp, rdHints); e == nil {
+						ftext = res.GetText()
+					}
+				}
+				dec.Decode(bare, decHints)
+			})
+			if ftext != "" {
+				l.Count("foreign symbols read (outcome not judged)", 1)
+			}
+			l.Count("evaluations", 1)
+			if pm != "" {
+				fail("panic/"+site, "reading the foreign symbol panicked at step "+fmt.Sprint(step)+": "+pm)
+				return
+			}
+			continue
+		}
 		text := s.text()
 		var img *gozxing.BitMatrix
 		var err error
@@ -159,7 +190,7 @@ func historySeq(l *mc.Local, menu []hsym, fresh []*gozxing.BitMatrix, seq []int)
 				r.err = e
 				return
 			}
-			res, e := rd.Decode(bmp, map[gozxing.DecodeHintType]interface{}{gozxing.DecodeHintType_PURE_BARCODE: true})
+			res, e := rd.Decode(bmp, rdHints)
 			if e != nil {
 				r.err = e
 				return
@@ -181,7 +212,7 @@ func historySeq(l *mc.Local, menu []hsym, fresh []*gozxing.BitMatrix, seq []int)
 		bits := toBitMatrix(wr.code.GetMatrix())
 		var d read
 		d.panicked, d.site = mc.Guard(func() {
-			res, e := dec.Decode(bits, nil)
+			res, e := dec.Decode(bits, decHints)
 			if e != nil {
 				d.err = e
 				return
@@ -194,6 +225,35 @@ func historySeq(l *mc.Local, menu []hsym, fresh []*gozxing.BitMatrix, seq []int)
 		}
 	}
 	l.Distinct("nontrivial", "history "+names)
+}
+
+var foreignOnce sync.Once
+var foreignModules [][]bool
+
+// foreignSymbol: version 2-L, one byte segment without ECI holding the Shift_JIS bytes of
+// "日本語のテキストです" (built by the reference constructor), with a 4-module quiet zone.
+func foreignSymbol() (padded, bare *gozxing.BitMatrix) {
+	foreignOnce.Do(func() {
+		sj := []byte{0x93, 0xfa, 0x96, 0x7b, 0x8c, 0xea, 0x82, 0xcc, 0x83, 0x65, 0x83, 0x4c, 0x83, 0x58, 0x83, 0x67, 0x82, 0xc5, 0x82, 0xb7}
+		data, err := qr.DataCodewordsFor([]qr.Segment{{Mode: qr.Byte, Data: sj, ECI: -1}}, 2, qr.L)
+		if err != nil {
+			panic(err)
+		}
+		foreignModules = qr.Build(data, 2, qr.L, 3)
+	})
+	// fresh matrices for every use: the decoder works on the matrix it is given in place
+	m := foreignModules
+	padded, _ = gozxing.NewBitMatrix(len(m)+8, len(m)+8)
+	bare, _ = gozxing.NewBitMatrix(len(m), len(m))
+	for y := range m {
+		for x := range m[y] {
+			if m[y][x] {
+				padded.Set(x+4, y+4)
+				bare.Set(x, y)
+			}
+		}
+	}
+	return padded, bare
 }
 
 func hintCharset(s hsym) string {
@@ -209,6 +269,9 @@ func runHistory() {
 	menu := historyMenu()
 	fresh := make([]*gozxing.BitMatrix, len(menu))
 	for k, s := range menu {
+		if s.Family == "foreign" {
+			continue
+		}
 		img, err := qrcode.NewQRCodeWriter().Encode(s.text(), gozxing.BarcodeFormat_QR_CODE, s.W, s.H, s.hints())
 		if err != nil {
 			chk.Violation("C01/history/fresh-encode-refused/"+s.Name, "a fresh writer refuses a text that fits the forced version: "+err.Error(), hrec{Sub: "history", Menu: menu, Seq: []int{k}})
